@@ -16,9 +16,9 @@ import (
 
 func init() {
 	register(&Check{ID: "C14", Run: runC14, Expl: oblig.Explanation{
-		Text: "Static group-balancer check. The arithmetic facts the property rests on are mathematical and independent of the code: for 0 <= i < p and m >= 1 the selector i % m == k picks exactly one k in 0..m-1 and class sizes differ by at most one; the half-open intervals [k*p/m, (k+1)*p/m) for k = 0..m-1 tile [0,p) and their lengths differ by at most one. What can differ per code revision, and what is decided here, is that the code instantiates those selectors with the right quantities. (R1) findMembersByTopic inserts each member under each of its topics and sorts every per-topic list with a strict comparison of the unique member ID, unconditionally, before returning; Range and RoundRobin iterate exactly its result (order independence). (R2) in Range and RoundRobin every write into the result goes to result[member.ID][topic] with member ranging over that topic's sorted members, topic the map key, and the value appended being the element at the current position of findPartitions(topic, topicPartitions); findPartitions returns the IDs of exactly the partitions whose Topic equals its argument. (R3) the append is guarded by exactly the reference selector: RoundRobin position % len(topic members) == member position; Range position >= k*p/m and position < (k+1)*p/m with k the member position, p = len(that topic's partitions), m = len(that topic's members) (commutative operands and comparison orientation are normalised). (R4) the leader applies the balancer findGroupBalancer selected for the negotiated protocol name to the members decoded from the join response and to the partitions of exactly their topics. (R5) RackAffinity: per-topic inputs are grouped by the same topic key; every partition id written into any list originates from partitions[].ID and every member key from members[].ID; target and remainder are len(partitions)/len(members) and %; the final pass hands a remainder slot only to a member that is not already above target. Not decided: RackAffinity's exactly-once, evenness and rack-locality bound in general (they depend on the interplay of slice arithmetic over a map iteration order — a numerical argument outside this analysis); behaviour for m = 0.",
-		Rule: "one obligation per structural fact; expected and found expression shapes are printed",
-		Trusted: []string{"go/ssa", "expression shapes (internal/an/shape.go)", "value provenance (internal/an/flow.go)", "the two arithmetic facts stated above"},
+		Text:        "Static group-balancer check. The arithmetic facts the property rests on are mathematical and independent of the code: for 0 <= i < p and m >= 1 the selector i % m == k picks exactly one k in 0..m-1 and class sizes differ by at most one; the half-open intervals [k*p/m, (k+1)*p/m) for k = 0..m-1 tile [0,p) and their lengths differ by at most one. What can differ per code revision, and what is decided here, is that the code instantiates those selectors with the right quantities. (R1) findMembersByTopic inserts each member under each of its topics and sorts every per-topic list with a strict comparison of the unique member ID, unconditionally, before returning; Range and RoundRobin iterate exactly its result (order independence). (R2) in Range and RoundRobin every write into the result goes to result[member.ID][topic] with member ranging over that topic's sorted members, topic the map key, and the value appended being the element at the current position of findPartitions(topic, topicPartitions); findPartitions returns the IDs of exactly the partitions whose Topic equals its argument. (R3) the append is guarded by exactly the reference selector: RoundRobin position % len(topic members) == member position; Range position >= k*p/m and position < (k+1)*p/m with k the member position, p = len(that topic's partitions), m = len(that topic's members) (commutative operands and comparison orientation are normalised). (R4) the leader applies the balancer findGroupBalancer selected for the negotiated protocol name to the members decoded from the join response and to the partitions of exactly their topics. (R5) RackAffinity: per-topic inputs are grouped by the same topic key; every partition id written into any list originates from partitions[].ID and every member key from members[].ID; target and remainder are len(partitions)/len(members) and %; the final pass hands a remainder slot only to a member that is not already above target. Not decided: RackAffinity's exactly-once, evenness and rack-locality bound in general (they depend on the interplay of slice arithmetic over a map iteration order — a numerical argument outside this analysis); behaviour for m = 0.",
+		Rule:        "one obligation per structural fact; expected and found expression shapes are printed",
+		Trusted:     []string{"go/ssa", "expression shapes (internal/an/shape.go)", "value provenance (internal/an/flow.go)", "the two arithmetic facts stated above"},
 		Assumptions: []string{"member IDs are unique within a group (broker-assigned)"},
 	}})
 }
@@ -92,7 +92,7 @@ func c14Members(p *load.Program, r *oblig.Report) {
 	nSort := 0
 	an.EachInstr(fn, func(ins ssa.Instruction) {
 		if c, ok := ins.(*ssa.Call); ok {
-			if f := c.Call.StaticCallee(); f != nil && f.Pkg != nil && f.Pkg.Pkg.Path() == "sort" && (f.Name() == "Slice" || f.Name() == "SliceStable") {
+			if f := c.Call.StaticCallee(); f != nil && f.Pkg != nil && f.Pkg.Pkg.Path() == "sort" && (an.RefFuncName(f) == "Slice" || an.RefFuncName(f) == "SliceStable") {
 				sortCall = c
 				nSort++
 			}
@@ -110,7 +110,7 @@ func c14Members(p *load.Program, r *oblig.Report) {
 	inLoop := false
 	for d, child := sortCall.Block().Idom(), sortCall.Block(); d != nil; d, child = d.Idom(), d {
 		iff, _ := an.IfCond(d)
-		if iff == nil || clean(an.Shape(iff.Cond)) != loopG || !edgeControls(d, 0, child) {
+		if iff == nil || clean(an.Shape(an.CondOf(iff))) != loopG || !edgeControls(d, 0, child) {
 			continue
 		}
 		// every pass through the loop body sorts (a disjunctive guard would leave no dominating condition)
@@ -137,10 +137,10 @@ func c14Members(p *load.Program, r *oblig.Report) {
 		shapes := returnShapes(lf)
 		less = strings.Join(shapes, " ;; ")
 		for i, prm := range lf.Params {
-			less = strings.ReplaceAll(less, "["+prm.Name()+"]", fmt.Sprintf("[#%d]", i))
+			less = strings.ReplaceAll(less, "["+an.ParamName(prm)+"]", fmt.Sprintf("[#%d]", i))
 		}
 		for _, fv := range lf.FreeVars {
-			less = strings.ReplaceAll(less, "*free:"+fv.Name(), "S")
+			less = strings.ReplaceAll(less, "*free:"+an.FreeVarName(fv), "S")
 		}
 	}
 	okLess := less == "(S[#0].ID < S[#1].ID)" || less == "(S[#1].ID < S[#0].ID)" || less == "(S[#0].ID > S[#1].ID)"
@@ -240,7 +240,7 @@ func guardWith(at ssa.Instruction, render func(ssa.Value) string) []string {
 		default:
 			continue
 		}
-		c := iff.Cond
+		c := an.CondOf(iff)
 		for {
 			u, isU := c.(*ssa.UnOp)
 			if !isU || u.Op != token.NOT {
@@ -279,6 +279,33 @@ func guardWith(at ssa.Instruction, render func(ssa.Value) string) []string {
 			s = "¬" + s
 		}
 		conds = append(conds, s)
+	}
+	// an instruction inside a helper that did not exist at review time also runs under the conditions of the
+	// helper's call sites (those common to all sites)
+	if fn := at.Parent(); an.IsNew(fn) {
+		var common map[string]bool
+		for _, site := range an.SitesOf(fn) {
+			si, ok := site.(ssa.Instruction)
+			if !ok || si.Parent() == fn {
+				continue
+			}
+			m := map[string]bool{}
+			for _, c := range guardWith(si, render) {
+				m[c] = true
+			}
+			if common == nil {
+				common = m
+			} else {
+				for k := range common {
+					if !m[k] {
+						delete(common, k)
+					}
+				}
+			}
+		}
+		for k := range common {
+			conds = append(conds, k)
+		}
 	}
 	sort.Strings(conds)
 	return conds
@@ -340,7 +367,7 @@ func c14Nest(p *load.Program, r *oblig.Report, name string) {
 	// the member map
 	var mbt *ssa.Call
 	an.EachInstr(fn, func(ins ssa.Instruction) {
-		if c, ok := ins.(*ssa.Call); ok && c.Call.StaticCallee() != nil && c.Call.StaticCallee().Name() == "findMembersByTopic" {
+		if c, ok := ins.(*ssa.Call); ok && c.Call.StaticCallee() != nil && an.RefFuncName(c.Call.StaticCallee()) == "findMembersByTopic" {
 			mbt = c
 		}
 	})
@@ -460,7 +487,7 @@ func c14Leader(p *load.Program, r *oblig.Report) {
 	r.Check(found, rule, "kafka.(*ConsumerGroup).assignTopicPartitions → balancer, members and partitions", p.Pos(fn.Pos()), want, strings.Join(got, " ;; "))
 	// findGroupBalancer returns the balancer whose ProtocolName equals the requested one
 	okFB := false
-	for _, b := range fb.Blocks {
+	for _, b := range an.Blocks(fb) {
 		_, ci := an.IfCond(b)
 		if ci == nil || ci.Op != token.EQL {
 			continue
@@ -502,7 +529,7 @@ func c14Leader(p *load.Program, r *oblig.Report) {
 	// metadata is decoded from this member's own MemberMetadata
 	okDec := false
 	an.EachInstr(mk, func(ins ssa.Instruction) {
-		if c, ok := ins.(*ssa.Call); ok && c.Call.StaticCallee() != nil && c.Call.StaticCallee().Name() == "NewReader" && an.ShortFunc(c.Call.StaticCallee()) == "bytes.NewReader" {
+		if c, ok := ins.(*ssa.Call); ok && c.Call.StaticCallee() != nil && an.RefFuncName(c.Call.StaticCallee()) == "NewReader" && an.ShortFunc(c.Call.StaticCallee()) == "bytes.NewReader" {
 			os := an.OriginStrings(an.Origins(c.Call.Args[0], an.FlowOpts{}))
 			okDec = len(os) == 1 && os[0] == "param:in[].MemberMetadata"
 		}
@@ -674,7 +701,7 @@ func c14Rack(p *load.Program, r *oblig.Report) {
 	// the final pass: the remainder slot goes only to a member not above target
 	okFinal := false
 	foundG := ""
-	for _, b := range at.Blocks {
+	for _, b := range an.Blocks(at) {
 		for _, ins := range b.Instrs {
 			bo, ok := ins.(*ssa.BinOp)
 			if !ok || bo.Op != token.SUB {
